@@ -17,6 +17,8 @@ def gen_case(g, prop):
     if prop == 'C15':
         st['auto_exclude'] = g.random() < 0.3; st['recursive'] = g.random() < 0.85
         pats = [g.choice(T.PATTERNS) for _ in range(g.randint(0, 5))]
+        if g.random() < 0.12:    # the input path itself is excluded: by directory-only pattern, bare name or absolute path
+            pats.append(g.choice([dname + '/', dname, '{INP}', '{INP}/', '**/' + dname + '/']))
         if g.random() < 0.3:   # several patterns hitting adjacent siblings / every cmake file of a directory
             pats += g.choice([['aa/', 'ab/', 'ac/'], ['e1.cmake', 'e2.cmake', 'e3.cmake'], ['*.cmake'], ['a.cmake', 'b.cmake', 'c.cmake']])
     if prop == 'C12':
@@ -48,7 +50,13 @@ def gen_case(g, prop):
         inp = dict(kind='file', name=f, content=T.file_content(g, f), spelled=g.choice(['abs', 'rel']))
         if output == 'nested': output = 'abs'
     if inp.get('spelled') == 'dot' and output == 'rel': output = 'abs'   # a relative output would resolve against the input directory
-    return dict(inputs=[inp], settings=st, patterns=pats, output=output)
+    case = dict(inputs=[inp], settings=st, patterns=pats, output=output)
+    if prop == 'C12' and inp['kind'] == 'dir' and output != 'nested' and g.random() < 0.35:
+        # another directory in the same run, through the same settings object: its pages must carry ITS default prefix
+        other = dict(kind='dir', name='zz2', spelled='abs', children=[dict(name='zz_only.cmake', content='function(zz_f)\nendfunction()\n')])
+        case['inputs'] = [inp, other] if g.random() < 0.5 else [other, inp]
+        case['target'] = case['inputs'].index(inp)
+    return case
 
 
 def excl_fn(case, abs_input):
@@ -97,10 +105,13 @@ def find_content(children, rel):
 
 def check_case(prop, case, sb, drv, key, out, n_orders=3):
     g = random.Random(repr(key) + 'orders')
-    inp = case['inputs'][0]
+    tgt = case.get('target', 0)
+    inp = case['inputs'][tgt]
     real = T.run_real(sb.dir, case, variant='v0')
+    if len(case['inputs']) > 1:
+        real['abs_inputs_all'] = real['abs_inputs']; real['abs_inputs'] = [real['abs_inputs'][tgt]]
     out.traces_validated += 1
-    mo = drv.run([T.model_request(case, real['abs_inputs'])])[0]
+    mo = drv.run([T.model_request(case, real.get('abs_inputs_all', real['abs_inputs']))])[0]
     rec = dict(suite='trees', key=key, case=case)
     # ---- correspondence
     mfiles = T.model_files(mo)
@@ -196,6 +207,10 @@ def check_case(prop, case, sb, drv, key, out, n_orders=3):
                     body = [l.strip() for l in content.split('\n')[1:] if l.strip().startswith('# ')]
                     if lines[6:8] != ['', '   ' + body[0][2:]]:
                         vios.append(dict(kind='module doccomment text not under the module directive', file=relf, real=lines[6:9])); break
+            if len(case['inputs']) > 1 and 'zz_only.rst' in files:
+                want_t = (st.get('prefix') if st.get('prefix') is not None else 'zz2') + st.get('sep', '.') + ('zz_only.cmake' if st.get('ext_titles') else 'zz_only')
+                if T.title_of(files['zz_only.rst']) != want_t:
+                    vios.append(dict(kind="a second input directory's page does not carry its own default prefix", expected=want_t, real=T.title_of(files['zz_only.rst'])))
             titles = {}
             for p, text in files.items():
                 if p.endswith('index.rst'): continue
@@ -213,6 +228,15 @@ def check_case(prop, case, sb, drv, key, out, n_orders=3):
                 diff = sorted(set(r2['files']) ^ set(files)) or [p for p in files if files[p] != r2['files'].get(p)]
                 vios.append(dict(kind='output depends on the directory listing order', paths=diff[:6],
                                  order=[c['name'] for c in c2['inputs'][0]['children']])); break
+    if prop == 'C18' and real['status'] == 'ok' and case.get('output') == 'abs' and inp['kind'] == 'dir' and key[-1] % 2 == 0:
+        # the output directory already holds the pages of an earlier run made with other settings
+        old = copy.deepcopy(case); old['settings'] = dict(old['settings'], prefix='OLDPFX', ext_titles=not st.get('ext_titles', False))
+        T.run_real(sb.dir, old, variant='stale')
+        r2 = T.run_real(sb.dir, case, variant='stale', keep_inputs=True)
+        out.traces_validated += 2
+        if r2['files'] != files:
+            diff = [p for p in files if files[p] != r2['files'].get(p)] or sorted(set(files) ^ set(r2['files']))
+            vios.append(dict(kind='pages left over from an earlier run were not rewritten', paths=diff[:5]))
     if prop == 'C18' and real['status'] == 'ok':
         if real['changed_outside_output']:
             vios.append(dict(kind='files outside the output directory changed', changed=list(real['changed_outside_output'].items())[:5]))
